@@ -556,6 +556,10 @@ class DataFrameSchemaBackend(PolarsSchemaBackend):
                         # column is reported by check_column_presence
                         continue
 
+                    if col_schema.dtype is None:
+                        # nothing to coerce to, as in the Column backend
+                        continue
+
                     if schema.coerce or col_schema.coerce:
                         obj = getattr(col_schema.dtype, coerce_fn)(
                             PolarsData(obj, col_schema.selector)
